@@ -19,6 +19,7 @@ St20 == <<83,116,97,116,105,99,32,116,101,120,116,32,49,56,32,98,226,130,172,33>
 St40 == St20 \o <<32,97,110,100,32,115,111,109,101,32,109,111,114,101,32,195,169,33,33,33>>
 cStatics == << St20 >>
 cStatics2 == << St20, St40 >>
+cStatics3 == << St20, St40, St20 >>     \* the same text at two addresses (1 and 3), and as a prefix of a longer one (2)
 cChars == { U3 }
 cCharsAll == { <<97>>, E2, U3, G4 }
 cRetain == { <<0,1,0,1,0,1,0,1,0,1,0,1,0,1,0,1,0,1,0,1,0,1>> }
@@ -38,7 +39,9 @@ cSeedsEmpty == { <<>> }
 \* (the last two: 15 / 16 bytes whose lossy text is exactly 16 bytes: a truncated 3- / 4-byte char at the end / at the front)
 cRaw == { <<49,50,51,52,53,54,55,56,57,48,97,98,99,226,130>>, <<240,159,152,49,50,51,52,53,54,55,56,57,48,97,98,99>>, <<97, 255, 98>>, <<240, 144, 128>>, <<226, 130>> \o A15 \o <<237, 160, 128, 99>>, A17 \o <<192, 175, 244, 144>>, <<>>, G4 \o A15 }
 cRawNone == {}
-cU16 == { [i \in 1..16 |-> 97], [i \in 1..5 |-> 8364] \o <<97>>, <<97, 55296, 98>>, <<55357, 56832, 97>>, <<56320>>, <<>>, [i \in 1..18 |-> IF i = 9 THEN 55296 ELSE 8364] }
+cU16 == { [i \in 1..16 |-> 97], [i \in 1..5 |-> 8364] \o <<97>>, <<97, 55296, 98>>, <<55357, 56832, 97>>, <<56320>>, <<>>, [i \in 1..18 |-> IF i = 9 THEN 55296 ELSE 8364],
+          [i \in 1..6 |-> IF i % 2 = 1 THEN 55357 ELSE 56832], [i \in 1..8 |-> IF i % 2 = 1 THEN 55357 ELSE 56832],       \* 3 and 4 pairs: 12 and 16 bytes from 6 and 8 units
+          <<55348, 56606, 109, 117, 115, 105, 99, 55348, 56606>>, [i \in 1..6 |-> IF i % 2 = 1 THEN 55357 ELSE 56832] \o <<97, 55296>> }
 cU16None == {}
 cOpsSim == cOpsAll \cup {"compare", "from_utf8_lossy", "from_utf16"}
 cCapsSim == {0, 1, 15, 16, 17, 30, 64, BIG, TOOLONG}
@@ -88,7 +91,11 @@ SeedPair16     == << o("from_str", 1, 0, 0, M16), o("with_capacity", 2, 0, 17, <
 A8 == <<97,98,99,100,101,102,103,104>>
 SeedPairPrefix   == << o("from_str", 1, 0, 0, A8 \o <<49>>), o("from_str", 2, 0, 0, A8 \o <<50>>), o("from_str", 3, 0, 0, A8 \o <<97, 97>>) >>
 SeedPairPrefix16 == << o("from_str", 1, 0, 0, A15 \o <<120>>), o("from_str", 2, 0, 0, A15 \o <<121>>), o("from_str", 3, 0, 0, A15 \o <<120, 120>>) >>
-cSeedsPairs == { SeedPairPrefix, SeedPairPrefix16, SeedPairOver, SeedPairShort, SeedPairStatic, SeedPairPop, SeedPairStatH, SeedTripleSh, SeedTripleTr, SeedPair16 }
+\* two static handles with equal text at different addresses (needs Statics <- cStatics3)
+SeedPairStat2  == << o("from_static", 1, 1, 0, <<>>), o("from_static", 2, 3, 0, <<>>) >>
+SeedPairStatTr == << o("from_static", 1, 1, 0, <<>>), o("from_static", 2, 2, 0, <<>>), o("truncate", 2, 0, 20, <<>>) >>
+SeedPairStatTr2 == << o("from_static", 1, 2, 0, <<>>), o("truncate", 1, 0, 17, <<>>), o("from_static", 2, 3, 0, <<>>), o("truncate", 2, 0, 17, <<>>) >>
+cSeedsPairs == { SeedPairStat2, SeedPairStatTr, SeedPairStatTr2, SeedPairPrefix, SeedPairPrefix16, SeedPairOver, SeedPairShort, SeedPairStatic, SeedPairPop, SeedPairStatH, SeedTripleSh, SeedTripleTr, SeedPair16 }
 cOpsPairs == {"compare", "push_str", "pop", "clone", "truncate", "drop", "clear"}
 SeedTriple == << o("from_str", 1, 0, 0, M22), o("clone", 2, 1, 0, <<>>), o("clone", 3, 1, 0, <<>>), o("truncate", 3, 0, 6, <<>>) >>   \* three holders, one shorter
 cSeeds3 == cSeedsAll \cup cSeedsPairs \cup { SeedTriple }
